@@ -575,4 +575,166 @@ def rule_BITS(FA):
             else:
                 out.append(Inst('R-BITS', key, 'ok', line, 'fragment mask %s, shift step %s, accumulator shift %s' % (sorted(masks), sorted(steps), sorted(acc)), props,
                                 sample={'masks': sorted(masks), 'shift_steps': sorted(steps), 'accumulator_shifts': sorted(acc)}))
+    out.extend(_bits_initial_shift(FA))
+    return out
+
+
+def _decast(t):
+    if not isinstance(t, tuple) or not t:
+        return t
+    if t[0] in ('cast', 'as_') and len(t) == 3:
+        return _decast(t[2])
+    return tuple(_decast(x) for x in t)
+
+
+def _eval_affine(t, env):
+    """integer value of a term built from + - * << >> over opaque leaves (valued by env); None when another operator occurs"""
+    if not isinstance(t, tuple) or not t:
+        return None
+    if t[0] == 'const':
+        return t[1] if isinstance(t[1], int) else None
+    if t[0] == 'bin' and t[1] in ('Add', 'Sub', 'Mul', 'Shl', 'Shr', 'Div'):
+        a, b = _eval_affine(t[2], env), _eval_affine(t[3], env)
+        if a is None or b is None:
+            return None
+        if t[1] in ('Shl', 'Shr') and not (0 <= b < 64):
+            return None
+        if t[1] == 'Div':
+            return a // b if b > 0 and a >= 0 else None
+        return {'Add': a + b, 'Sub': a - b, 'Mul': a * b, 'Shl': a << b if t[1] == 'Shl' else 0, 'Shr': a >> b if t[1] == 'Shr' else 0}[t[1]]
+    return env.setdefault(t, 11 + 2 * len(env) + (sum(map(ord, repr(t))) % 5) * 8)
+
+
+def _same_value(t1, t2):
+    """True / False when both terms are arithmetic over the same opaque leaves and agree / disagree on sample valuations;
+    None when that cannot be decided"""
+    res = []
+    for k in range(4):
+        env = {}
+        a = _eval_affine(t1, env)
+        leaves1 = set(env)
+        b = _eval_affine(t2, env)
+        if a is None or b is None or set(env) != leaves1:
+            return None
+        # re-evaluate with shifted leaf values
+        env2 = {x: v * (k + 2) + k for x, v in env.items()}
+        res.append(_eval_affine(t1, dict(env2)) == _eval_affine(t2, dict(env2)))
+    return all(res)
+
+
+def _bits_initial_shift(FA):
+    """The readers of one tree (rank, both prefetch phases, select) walk the same levels from the top: the loop-carried
+    shift by which they extract the level fragment starts from the same value in each of them.  A reader whose starting
+    shift differs from its siblings' reads the fragment of another level."""
+    out = []
+    per_base = collections.defaultdict(list)
+    guard_of = {}
+    for f in FA.lib_fns(include_closures=False):
+        base = f.get('_base')
+        if base not in BITS_FAMILY or f['name'] == 'new' or not (f['name'].startswith('rank') or f['name'].startswith('select') or f['name'].startswith('get')):
+            continue
+        spec = next(iter(FA.specs(f)), {})
+        F = FA.fn(f, spec)
+        F.dom()
+        amt = set()
+        for bi, b in enumerate(F.blocks):
+            if bi not in F.reach:
+                continue
+            cands = []
+            for s_ in b['s']:
+                rv = s_.get('rv')
+                if rv and rv['k'] == 'bin' and rv['op'].replace('WithOverflow', '').replace('Unchecked', '') == 'Shr':
+                    cands.append(rv['b'])
+            t = b['t']
+            if t['k'] == 'call' and 'fn' in t['f'] and t['f']['fn']['name'] == 'shr' and len(t['args']) == 2:
+                cands.append(t['args'][1])
+            for o in cands:
+                for st in subterms(norm(F.operand_term(o))):
+                    if isinstance(st, tuple) and st[:1] == ('unknown',):
+                        amt.add(st[1])
+        inits = set()
+        line = f['span']
+        for l, ds in F.defs.items():
+            nm = F.names.get(l)
+            if nm is None or nm not in amt:
+                continue
+            for d in ds:
+                if d[0] in F.reach and d[1] == 'assign':
+                    t = _decast(norm(F.rvalue_term(d[2])))
+                    if t[:1] == ('const',) or has_unknown(t):
+                        continue
+                    inits.add(norm(t))
+        # is the loop-carried shift itself tested (`while shift >= 2`)?  Readers of a Huffman-shaped tree stop when the
+        # code of the symbol is used up, not after a fixed number of levels
+        tested = False
+        use_blocks = set()
+        for bi, b in enumerate(F.blocks):
+            if bi not in F.reach:
+                continue
+            ops = [s_['rv']['b'] for s_ in b['s'] if s_.get('rv') and s_['rv']['k'] == 'bin' and s_['rv']['op'].replace('WithOverflow', '').replace('Unchecked', '') == 'Shr']
+            if b['t']['k'] == 'call' and 'fn' in b['t']['f'] and b['t']['f']['fn']['name'] == 'shr' and len(b['t']['args']) == 2:
+                ops.append(b['t']['args'][1])
+            if any(isinstance(st, tuple) and st[:1] == ('unknown',) and st[1] in amt for o in ops for st in subterms(norm(F.operand_term(o)))):
+                use_blocks.add(bi)
+
+        def reach_from(x):
+            seen, st = set(), [x]
+            while st:
+                y = st.pop()
+                if y in seen:
+                    continue
+                seen.add(y)
+                st.extend(F.succ.get(y, []))
+            return seen
+        dom = F.dom()
+        for bi, b in enumerate(F.blocks):
+            if bi not in F.reach or b['t']['k'] != 'switch':
+                continue
+            cmp_on_shift = False
+            for s_ in b['s']:
+                rv = s_.get('rv')
+                if rv and rv['k'] == 'bin' and rv['op'] in ('Lt', 'Le', 'Gt', 'Ge') and not any(m.startswith('debug_assert') for m in s_.get('macros', [])):
+                    for o in (rv['a'], rv['b']):
+                        if any(isinstance(st, tuple) and st[:1] == ('unknown',) and st[1] in amt for st in subterms(norm(F.operand_term(o)))):
+                            cmp_on_shift = True
+            if not cmp_on_shift:
+                continue
+            # a LOOP guard: it dominates a use of the shift that can come back to it, and one of its arms leaves that cycle
+            for u in use_blocks:
+                if bi in dom[u] and bi in reach_from(u):
+                    if any(u not in reach_from(sx) for sx in F.succ.get(bi, [])):
+                        tested = True
+        if inits:
+            per_base[base].append((f, inits))
+            guard_of[fn_key(f)] = tested
+    for base, lst in sorted(per_base.items()):
+        if len(lst) >= 3:
+            g = [guard_of.get(fn_key(f), False) for f, _ in lst]
+            if sum(g) == len(lst) - 1:
+                f = lst[g.index(False)][0]
+                out.append(Inst('R-BITS', 'R-BITS|%s|loop guard' % fn_key(f), 'violation', f['span'],
+                                'the other readers of %s stop their descent on a test of the loop-carried shift (the code of the symbol is used up); `%s` never tests it: for a code shorter than its loop bound it keeps descending with a negative / wrapped shift' % (
+                                    base.split('::')[-1], f['name']), list(BITS_FAMILY[base][2]) + (['C09'] if 'prefetch' in f['name'] else [])))
+            elif all(g):
+                out.append(Inst('R-BITS', 'R-BITS|%s|loop guard' % base, 'ok', lst[0][0]['span'], 'all %d readers test the loop-carried shift' % len(lst), list(BITS_FAMILY[base][2]) + ['C09']))
+    for base, lst in sorted(per_base.items()):
+        if len(lst) < 3:
+            continue
+        cnt = collections.Counter(t for _, ins in lst for t in ins)
+        ref, n = cnt.most_common(1)[0]
+        if n < len(lst) - 1 or n < 2:
+            continue    # no clear majority: nothing to contradict
+        props = list(BITS_FAMILY[base][2])
+        for f, ins in lst:
+            key = 'R-BITS|%s|initial shift' % fn_key(f)
+            p2 = props + (['C09'] if 'prefetch' in f['name'] else [])
+            same = [(_same_value(x, ref)) for x in ins]
+            if ref in ins or any(x is True for x in same):
+                out.append(Inst('R-BITS', key, 'ok', f['span'], 'starts at `%s` like its siblings' % show(ref)[:60], p2))
+            elif not all(x is False for x in same):
+                out.append(Inst('R-BITS', key, 'note', f['span'], 'starting shift `%s` is not comparable with the siblings\' `%s`: not decided' % ('; '.join(show(x)[:50] for x in ins), show(ref)[:50]), p2, nontrivial=False))
+            else:
+                out.append(Inst('R-BITS', key, 'violation', f['span'],
+                                'the level shift starts at `%s` but the other readers of %s start at `%s`: this function extracts the fragments of other levels than they do' % (
+                                    '; '.join(show(x)[:60] for x in ins), base.split('::')[-1], show(ref)[:60]), p2))
     return out
